@@ -42,9 +42,9 @@ RingNext ==
 Variant(kind, keys, pk) == [kind |-> kind, keys |-> keys, pk |-> pk]
 ListVariants == << Variant(1, <<1>>, 1), Variant(1, <<1, 2>>, 1), Variant(1, <<1, 2>>, 2), Variant(1, <<2, 3>>, 3),
                    Variant(2, <<1>>, 1), Variant(2, <<1, 2>>, 2),
-                   Variant(3, <<>>, 0), Variant(4, <<>>, 0), Variant(5, <<>>, 0), Variant(6, <<>>, 0) >>
+                   Variant(3, <<>>, 0), Variant(4, <<>>, 0), Variant(5, <<>>, 0), Variant(6, <<>>, 0), Variant(7, <<>>, 0) >>
 PlainVariants == << Variant(1, <<>>, 0), Variant(2, <<>>, 0), Variant(3, <<>>, 0), Variant(4, <<>>, 0),
-                    Variant(5, <<>>, 0), Variant(6, <<>>, 0) >>
+                    Variant(5, <<>>, 0), Variant(6, <<>>, 0), Variant(7, <<>>, 0) >>
 \* multisets as non-decreasing index sequences
 RECURSIVE NonDec(_, _)
 NonDec(n, len) == IF len = 0 THEN { <<>> }
